@@ -668,3 +668,29 @@ impl LuaIndex for LuaModuleIndex {
         self.module_nodes.insert(self.module_root_id, root_node);
     }
 }
+
+#[cfg(feature = "verif-hooks")]
+impl LuaModuleIndex {
+    /// verif hook H1: entry counts of every map of this index
+    pub fn verif_sizes(&self, out: &mut Vec<(String, usize)>) {
+        out.push(("module.module_nodes".into(), self.module_nodes.len()));
+        out.push((
+            "module.module_nodes.children.sum".into(),
+            self.module_nodes.values().map(|n| n.children.len()).sum(),
+        ));
+        out.push((
+            "module.module_nodes.file_ids.sum".into(),
+            self.module_nodes.values().map(|n| n.file_ids.len()).sum(),
+        ));
+        out.push(("module.file_module_map".into(), self.file_module_map.len()));
+        out.push((
+            "module.module_name_to_file_ids".into(),
+            self.module_name_to_file_ids.len(),
+        ));
+        out.push((
+            "module.module_name_to_file_ids.sum".into(),
+            self.module_name_to_file_ids.values().map(|v| v.len()).sum(),
+        ));
+        out.push(("module.workspaces".into(), self.workspaces.len()));
+    }
+}
